@@ -200,8 +200,21 @@ impl FixtureDatabase {
         if let Some(cached) = self.file_cache.get(file_path) {
             Some(Arc::clone(cached.value()))
         } else {
-            std::fs::read_to_string(file_path).ok().map(Arc::new)
+            Self::read_source(file_path).ok().map(Arc::new)
         }
+    }
+
+    /// Read a Python source file. A file that is not UTF-8 (legal with a PEP 263 coding
+    /// cookie: `# -*- coding: latin-1 -*-`) is decoded leniently instead of being treated as
+    /// unreadable: the bytes that do not decode sit in comments and strings, the structure
+    /// the analysis looks at is ASCII. Otherwise such a file would be known to the server
+    /// only while an editor has it open, and never to the workspace scan.
+    pub(crate) fn read_source(file_path: &Path) -> std::io::Result<String> {
+        let bytes = std::fs::read(file_path)?;
+        Ok(match String::from_utf8(bytes) {
+            Ok(text) => text,
+            Err(not_utf8) => String::from_utf8_lossy(not_utf8.as_bytes()).into_owned(),
+        })
     }
 
     /// Get or compute line index for a file, with content-hash-based caching.
@@ -381,7 +394,7 @@ impl FixtureDatabase {
         let indexed = self.file_definitions.contains_key(&canonical)
             || self.imports.contains_key(&canonical)
             || self.usages.contains_key(&canonical);
-        match std::fs::read_to_string(&canonical) {
+        match Self::read_source(&canonical) {
             Ok(disk_content) if scanning && indexed => {
                 self.file_cache
                     .insert(canonical.clone(), Arc::new(disk_content));
